@@ -61,6 +61,25 @@ func (p *Parser) parseExpression() (ast.Expression, error) {
 	return left, nil
 }
 
+// parseNotOperand parses the operand of a boolean NOT. NOT chains (NOT NOT NOT ...) recurse
+// through parsePrimaryExpression without passing parseExpression, so the recursion depth is
+// checked here as well.
+func (p *Parser) parseNotOperand() (ast.Expression, error) {
+	p.depth++
+	defer func() { p.depth-- }()
+
+	if p.depth > MaxRecursionDepth {
+		return nil, goerrors.RecursionDepthLimitError(
+			p.depth,
+			MaxRecursionDepth,
+			models.Location{Line: 0, Column: 0},
+			"",
+		)
+	}
+
+	return p.parseComparisonExpression()
+}
+
 // parseAndExpression parses an expression with AND operators (middle precedence)
 func (p *Parser) parseAndExpression() (ast.Expression, error) {
 	// Parse comparison expressions (higher precedence)
@@ -887,7 +906,7 @@ func (p *Parser) parsePrimaryExpression() (ast.Expression, error) {
 
 		// NOT followed by other expression (boolean negation)
 		// Parse at comparison level for proper precedence: NOT (a > b), NOT active
-		expr, err := p.parseComparisonExpression()
+		expr, err := p.parseNotOperand()
 		if err != nil {
 			return nil, err
 		}
